@@ -215,17 +215,47 @@ def interleave_check(sc):
         if not ms:
             return None, False
         srcs = [ms[0] for _ in docs]
+    outer = None
+    if sc.get("from_parent") is not None:
+        # the searches start from m.parent, where m is a result of an outer search that is still live (the outer
+        # iterator is fanning out from that very node); the outer iterator takes part in the interleaving
+        oexpr = b.steps(sc["from_parent"])
+        solo_outer = _steps(find_matches(oexpr, docs[0]), sc["calls"] + 1)
+        outer = find_matches(oexpr, docs[0])
+        try:
+            m = next(outer)
+        except Exception:  # noqa
+            return None, False
+        par = m.parent
+        if par is None:
+            return None, False
+        try:
+            ref = get_match(par.path, docs[0])      # the same location, found by a search of its own
+        except Exception:  # noqa
+            return None, False
+        got_outer = [("R", _val(m))]
+        srcs = [ref for _ in docs]
     solo = []
     for (pi, di, api) in sc["uses"]:
         solo.append(_steps(fns[api](exprs[pi], srcs[di]), sc["calls"]))
+    if outer is not None:
+        srcs = [par for _ in docs]
     its = [fns[api](exprs[pi], srcs[di]) for (pi, di, api) in sc["uses"]]
     got = [[] for _ in its]
     order = []
     for i in range(len(its)):
         order += [i] * sc["calls"]
+    if outer is not None:
+        order += [-1] * sc["calls"]
     rng.shuffle(order)
     for i in order:
-        got[i].append(_one(its[i]))
+        if i < 0:
+            got_outer.append(_one(outer))
+        else:
+            got[i].append(_one(its[i]))
+    if outer is not None and got_outer != solo_outer:
+        k = next(j for j in range(len(solo_outer)) if got_outer[j] != solo_outer[j])
+        return f"the outer iterator differs from its solo run at call {k}: {got_outer[k]} vs {solo_outer[k]}", True
     for i in range(len(its)):
         if got[i] != solo[i]:
             k = next(j for j in range(len(solo[i])) if got[i][j] != solo[i][j])
@@ -263,7 +293,14 @@ def interleave_oracle(ctx):
                 for _ in range(rng.randint(2, 5))]
         sc = {"docs": [enc(d) for d in docs], "paths": paths, "uses": uses, "calls": rng.randint(2, 9),
               "seed": rng.randrange(1 << 30)}
-        if rng.random() < 0.3:
+        r = rng.random()
+        fans = [["gwc"], ["igwc"], ["wc"], ["iwc"], ["rec"], ["s", None, None, None], ["t", ["a", "b", 0, 1, "c"]]]
+        if r < 0.25:
+            # searches from the parent of a result of a live outer search, starting with fan-out steps
+            pre = pg.gen_path([docs[0]], maxlen=2, minlen=0)
+            sc["from_parent"] = [x for x in pre if x[0] not in ("rec", "par")] + [rng.choice(fans)]
+            sc["paths"] = [[rng.choice(fans)] + [x for x in p[:2] if x[0] != "rec"] for p in paths]
+        elif r < 0.5:
             # several live searches from one Match object, starting with fan-out steps
             sc["from_match"] = pg.gen_path([docs[0]], maxlen=2, minlen=0)
             sc["paths"] = [[rng.choice([["gwc"], ["wc"], ["iwc"], ["rec"], ["s", None, None, None]])] + p[:2] for p in paths]
@@ -535,6 +572,17 @@ def big_iteration_check(sc):
             k = sum(1 for _ in find_matches(path.rec, doc))
             if k != 2 + 2 * n:
                 return f"path.rec over a document of {2 + 2 * n} nodes yields {k} matches", True
+        elif kind == "rec_scalars":
+            # a long run of scalar siblings under a recursive step that is not the last step: each is examined and
+            # passed over, however many there are, traced or not
+            doc = {"a": list(range(n)), "z": {"name": 1, "l": [7]}}
+            for label, got, want in (("find(path.rec.name)", lambda: list(find(path.rec.name, doc)), [1]),
+                                     ("find(path.rec[0])", lambda: list(find(path.rec[0], doc)), [0, 7]),
+                                     ("find(path.a.rec.name)", lambda: list(find(path.a.rec.name, doc)), []),
+                                     ("get(path.z.parent.rec.name)", lambda: get(path.z.parent.rec.name, doc), 1)):
+                g = got()
+                if g != want:
+                    return f"{label} over a list of {n} scalars gives {g!r:.80}, expected {want!r}", True
         elif kind == "find":
             doc = [{"v": i} for i in range(n)]
             vals = list(find(path[gen_wc()].v, doc))
